@@ -100,6 +100,16 @@ PROPS = {
                    "unlock->lock, lockable hand-over between iterations, barrier arrival->departure, region entry/return in sleeping and fast mode, worklist push->pop.",
         level_note="The HB tracker decides edges for the memory orders the compiled code requests; it does not explore stale-value (store-buffer) executions of the atomics themselves.",
         **tiers(6000, 120, 100000, 1500)),
+    "C15": dict(
+        jobs=[dict(harness="c15_reductions", variant="a", weight=2), dict(harness="c15_reductions", variant="n", weight=1)],
+        components=comp(), expected_probes=[],
+        design_ref="3.15",
+        level_text="Seeded exploration of generated update multisets with generated update->thread assignments applied inside on_each to GAccumulator (+=, -=, update; int/long/unsigned/double), "
+                   "GReduceMax/Min (incl. all-negative int/double/float), logical and/or, make_reducible with a user merge and a move-only type, reset; concurrent fills of InsertBag and PerThread "
+                   "vector/deque/list/set; DynamicBitSet concurrent set/reset plus range reset at generated alignments, bitwise ops, count, getOffsets; atomicMin/Max/Add/Subtract; concurrent union-find. "
+                   "Oracle: sequential fold / std:: containers / serial union-find.",
+        level_note="Sampling over seeds; the value-only parts (identities, masks) ride along on the simulated concurrent runs, the schedule-dependent parts (CAS loops under spurious weak-CAS failure, concurrent merges) are what the simulator adds.",
+        **tiers(8000, 120, 200000, 1500)),
 }
 
 ALL_IDS = ["C%02d" % i for i in range(1, 21)]
